@@ -24,12 +24,12 @@ let rec int_of_nat (n : nat) : int = match n with O -> 0 | S m -> 1 + int_of_nat
 
 (* decimal strings of arbitrary size (int64 extremes do not fit OCaml's 63-bit int) *)
 let z_of_string (s : string) : coq_Z =
-  let neg = Stdlib.String.length s > 0 && s.[0] = '-' in
-  let start = if neg || (Stdlib.String.length s > 0 && s.[0] = '+') then 1 else 0 in
+  let neg = Stdlib.String.length s > 0 && Stdlib.String.get s 0 = '-' in
+  let start = if neg || (Stdlib.String.length s > 0 && Stdlib.String.get s 0 = '+') then 1 else 0 in
   let ten = z_of_int 10 in
   let acc = ref Z0 in
   for i = start to Stdlib.String.length s - 1 do
-    let d = Char.code s.[i] - 48 in
+    let d = Char.code (Stdlib.String.get s i) - 48 in
     if d < 0 || d > 9 then failwith ("bad number " ^ s);
     acc := Z.add (Z.mul !acc ten) (z_of_int d)
   done;
